@@ -456,8 +456,24 @@ class C05:
                             except Exception:  # noqa: BLE001
                                 pass
 
+        def on_step_all(pool, op, out, before):
+            on_step(pool, op, out, before)
+            # the early Analyzer keeps answering requests (the case's own inputs where they fit) while the rest of the
+            # program modifies the circuit in place: what it answered for the circuit as it was must not linger
+            an0 = early.get("an")
+            if an0 is not None and op[0] not in ("new", "unitary", "copy", "plus") and op[1] == c["cid"] and c["cid"] in pool:
+                try:
+                    m0 = pool[c["cid"]].input_modes
+                    fit = [lw.State(list(s)) for s in c["inputs"]
+                           if len(s) == m0 and all(isinstance(x, int) and x >= 0 for x in s)]
+                    with warnings.catch_warnings():
+                        warnings.simplefilter("ignore")
+                        an0.analyze(fit if fit else lw.State([1] + [0] * (m0 - 1)))
+                except Exception:  # noqa: BLE001
+                    pass
+
         if c.get("ahist") == "early" or c.get("qhist") == "early":
-            _, pool = cg.run_impl(c["prog"], on_step=on_step, want=lambda op: [])
+            _, pool = cg.run_impl(c["prog"], on_step=on_step_all, want=lambda op: [])
             circ = pool[c["cid"]]
         else:
             circ = self._circuit(c)
